@@ -1,7 +1,27 @@
 ------------------------------ MODULE StreamsMC ------------------------------
-EXTENDS Streams
+EXTENDS Streams, IOUtils
 Writes == {[s |-> st, n |-> k] : st \in {"out", "err"}, k \in 0..3}
 MCScripts == UNION {[1..len -> Writes] : len \in 0..3}
+MCScripts4 == UNION {[1..len -> Writes] : len \in 0..4}
 \* a script that fills stderr beyond the pipe before closing stdout
 MCBadForSequential == {<<[s |-> "err", n |-> 3], [s |-> "out", n |-> 1]>>}
+
+\* direction B: what the real output_and_write_streams delivered for each script (unit ids decoded
+\* from the bytes) must be what the child wrote, per stream and in order, to writers and Output alike
+CONSTANT Mode
+TraceRec == ndJsonDeserialize(IOEnv.TRACE)
+Ids(scr, s) ==
+  LET f[k \in 0..Len(scr)] ==
+        IF k = 0 THEN [next |-> 1, ids |-> <<>>]
+        ELSE LET w == scr[k]  p == f[k - 1]  new == [i \in 1..w.n |-> p.next + i - 1]
+             IN  [next |-> p.next + w.n, ids |-> IF w.s = s THEN p.ids \o new ELSE p.ids]
+  IN f[Len(scr)].ids
+TraceCheck ==
+  \A i \in DOMAIN TraceRec :
+    LET r == TraceRec[i] IN
+    \/ /\ r.done
+       /\ r.out = Ids(r.script, "out") /\ r.err = Ids(r.script, "err")
+       /\ r.writer_out = r.out /\ r.writer_err = r.err
+    \/ (PrintT(<<"TRACE_MISMATCH", i>>) /\ FALSE)
+ASSUME Mode = "trace" => TraceCheck
 =============================================================================
